@@ -12,7 +12,7 @@
    per-entry facts are checked by vm_compute over the regenerated tables and lifted with forallb_forall. *)
 From Coq Require Import String Ascii.
 Require Import Hdl21.Base.PyInt Hdl21.Spec.PdkSpec Hdl21.Model.PdkSelect Hdl21.Model.Walker Hdl21.Model.PdkRegistry
-               Hdl21.Spec.C15Swap Hdl21.Proofs.C15Proofs.
+               Hdl21.Spec.C15Swap Hdl21.Proofs.C15Proofs Hdl21.Model.C15Store Hdl21.Proofs.C15StoreProofs.
 Require Import Hdl21Gen.PrimitivePorts Hdl21Gen.PdkTables_sample Hdl21Gen.PdkTables_sky130
                Hdl21Gen.PdkTables_gf180 Hdl21Gen.PdkTables_asap7.
 Open Scope string_scope.
@@ -384,3 +384,170 @@ Example C15_ex_ports :
   conns_exact ["d"; "g"; "s"; "b"] [("d", "x"); ("g", "y"); ("s", "z"); ("b", "z")] = true /\
   conns_exact ["g"; "d"; "s"; "b"; "sub"] [("d", "x"); ("g", "y"); ("s", "z"); ("b", "z")] = false.
 Proof. vm_compute. repeat split. Qed.
+
+(* ================================================================ 11. shared module objects, compilations that raise, several PDKs *)
+(* Model/C15Store.v: the design is the module TABLE (a module that several instances refer to is one object, rewritten
+   in place), `svisit fuel k s st i` = one walk of PDK k entering module i from store s, returning the store and walker
+   state it REACHED and the exception that ended it (None: it returned); `hrun ops (h0 s)` = a history of compilations
+   (pdk, entered module) in one process, each going on from whatever the earlier ones - returned or raised - left.
+   `srel Q s s'`: s' is s with the same modules, instance names, connections and sub-module references, every target
+   either identical or a generic primitive replaced by a call allowed by Q. *)
+
+(* 11.1 only Instance.of of mapped primitives is rewritten - in every module of the store, also when the walk raises;
+        the replacing call is the one the final cache holds for the request's key *)
+Theorem C15_store_only_of k fuel s st i s' st' e : svisit fuel k s st i = (s', st', e) ->
+  srel (Qin k (cache st')) s s' /\ cache_ext (cache st) (cache st') /\ (cache_ok k (cache st) -> cache_ok k (cache st')).
+Proof. intros H. destruct (svisit_rel' _ _ _ _ _ _ _ _ H) as (A & B & C). auto. Qed.
+Print Assumptions C15_store_only_of.
+
+(* 11.2 EVERY instance: a walk that returns leaves no generic primitive mapped by k in any module reachable from the
+        one it entered - from ANY store (whatever earlier walks of whatever PDK did to it, completely or partially)
+        and ANY walker state.  A walker that remembers modules across walks violates exactly this. *)
+Theorem C15_store_every_instance k fuel s st i s' st' : svisit fuel k s st i = (s', st', None) -> cleanR k s' i.
+Proof. apply svisit_clean. Qed.
+Print Assumptions C15_store_every_instance.
+
+(* 11.3 well-formed store (bottom-up DAG, what elaboration yields): neither fuel nor references run out *)
+Theorem C15_store_total k s st i : wf s -> (i < List.length s)%nat -> benign (snd (svisit (fuel_of s) k s st i)).
+Proof. intros W L. apply svisit_total; auto. unfold fuel_of. lia. Qed.
+Print Assumptions C15_store_total.
+
+(* 11.4 a walk that raises the selection error e was given, below the module it entered, a mapped request for which
+        the selection returns e; a walk that returns was given only requests the selection accepts, and each of them
+        now holds the selected call *)
+Theorem C15_store_error_justified k fuel s st i s' st' e : svisit fuel k s st i = (s', st', Some (SE e)) -> failing k s i e.
+Proof. apply svisit_err. Qed.
+Print Assumptions C15_store_error_justified.
+
+(* 11.5 modules not reachable from the entered one are left exactly as they were *)
+Theorem C15_store_unreached_untouched k fuel s st i x : ~ reach s i x ->
+  nth_error (fst (fst (svisit fuel k s st i))) x = nth_error s x.
+Proof. apply svisit_frame. Qed.
+Print Assumptions C15_store_unreached_untouched.
+
+(* 11.6 compiling twice equals compiling once, on shared objects: after a walk that returned, another walk of the same
+        PDK from any walker state returns the same store and leaves the state as it was *)
+Theorem C15_store_idempotent k fuel s st i s' st' : svisit fuel k s st i = (s', st', None) -> wf s -> (i < List.length s)%nat ->
+  forall st2, svisit (fuel_of s') k s' st2 i = (s', st2, None).
+Proof.
+  intros H W L st2. destruct (svisit_rel' _ _ _ _ _ _ _ _ H) as (_ & B & _).
+  apply svisit_noop; [eapply srel_wf; eauto|eapply svisit_clean; eauto| |]; unfold fuel_of; rewrite <- (srel_len _ _ _ B); lia.
+Qed.
+Print Assumptions C15_store_idempotent.
+
+(* 11.7 the specification relation of Spec/C15Swap.v holds between the hierarchy below the entered module before and
+        after a walk that returned (unfolded to any depth): the store walker meets the same specification as the tree
+        walker of theorem C15_walker_only_of *)
+Theorem C15_store_swap_rel k fuel s st i s' st' : svisit fuel k s st i = (s', st', None) ->
+  forall n, mrel k (in_cache (cache st')) (unfold n s i) (unfold n s' i).
+Proof.
+  intros H n. destruct (svisit_rel' _ _ _ _ _ _ _ _ H) as (_ & B & _). apply unfold_rel; [exact B|]. eapply svisit_clean; eauto.
+Qed.
+Print Assumptions C15_store_swap_rel.
+
+(* 11.8 equal primitive parameters give the same device call: any two positions of the store swapped by one walk
+        (also one that raised later) with the same cache group and parameters hold the identical call *)
+Theorem C15_store_same_call k fuel s st i s' st' e j1 q1 j2 q2 p1 p2 prm c1 c2 : svisit fuel k s st i = (s', st', e) ->
+  get_target s j1 q1 = Some (SPrim p1 prm) -> get_target s' j1 q1 = Some (SCall c1) ->
+  get_target s j2 q2 = Some (SPrim p2 prm) -> get_target s' j2 q2 = Some (SCall c2) ->
+  group_of k p1 = group_of k p2 -> c1 = c2.
+Proof.
+  intros H A1 B1 A2 B2 G. destruct (svisit_rel' _ _ _ _ _ _ _ _ H) as (_ & R & _).
+  destruct (srel_get_l _ _ _ _ _ _ R A1) as [t1 [E1 T1]]. destruct (srel_get_l _ _ _ _ _ _ R A2) as [t2 [E2 T2]].
+  rewrite B1 in E1. rewrite B2 in E2. inversion E1; subst. inversion E2; subst.
+  destruct T1 as [X|(p & pr & c & X1 & X2 & (g & Gp & L))]; [discriminate X|].
+  destruct T2 as [Y|(p' & pr' & c' & Y1 & Y2 & (g' & Gp' & L'))]; [discriminate Y|].
+  inversion X1; subst. inversion X2; subst. inversion Y1; subst. inversion Y2; subst.
+  rewrite Gp, Gp' in G. inversion G; subst. congruence.
+Qed.
+Print Assumptions C15_store_same_call.
+
+(* ... and across walks of the same PDK whose cache persists (Sky130 / GF180: module scope): a position swapped by an
+   earlier walk and one swapped by a later walk that started from a cache extending the earlier one's *)
+Theorem C15_store_same_call_across k f1 s st i1 s1 st1 e1 f2 sa st2 i2 s2 st3 e2 j1 q1 j2 q2 p1 p2 prm c1 c2 :
+  svisit f1 k s st i1 = (s1, st1, e1) -> cache_ext (cache st1) (cache st2) -> svisit f2 k sa st2 i2 = (s2, st3, e2) ->
+  get_target s j1 q1 = Some (SPrim p1 prm) -> get_target s1 j1 q1 = Some (SCall c1) ->
+  get_target sa j2 q2 = Some (SPrim p2 prm) -> get_target s2 j2 q2 = Some (SCall c2) ->
+  group_of k p1 = group_of k p2 -> c1 = c2.
+Proof.
+  intros H1 X H2 A1 B1 A2 B2 G.
+  destruct (svisit_rel' _ _ _ _ _ _ _ _ H1) as (_ & R1 & _). destruct (svisit_rel' _ _ _ _ _ _ _ _ H2) as (X2 & R2 & _).
+  destruct (srel_get_l _ _ _ _ _ _ R1 A1) as [t1 [E1 T1]]. destruct (srel_get_l _ _ _ _ _ _ R2 A2) as [t2 [E2 T2]].
+  rewrite B1 in E1. rewrite B2 in E2. inversion E1; subst. inversion E2; subst.
+  destruct T1 as [Y|(p & pr & c & Y1 & Y2 & (g & Gp & L))]; [discriminate Y|].
+  destruct T2 as [Z|(p' & pr' & c' & Z1 & Z2 & (g' & Gp' & L'))]; [discriminate Z|].
+  inversion Y1; subst. inversion Y2; subst. inversion Z1; subst. inversion Z2; subst.
+  rewrite Gp, Gp' in G. inversion G; subst. apply X in L. apply X2 in L. congruence.
+Qed.
+Print Assumptions C15_store_same_call_across.
+
+(* ---- histories: one or several PDKs, any number of compilations, entered at any module, returning or raising *)
+(* 11.9 after ANY history the store is the initial one with only targets of generic primitives replaced, each by the
+        call that the selection of one of the history's PDKs (one that maps the primitive) builds for the request *)
+Theorem C15_history_only_of ops s h es : hrun ops (h0 s) = (h, es) -> srel (Qany (map fst ops)) s (h_store h).
+Proof. intros H. apply (proj1 (hrun_rel _ _ _ _ H (hinv_h0 s))). Qed.
+Print Assumptions C15_history_only_of.
+
+(* 11.10 after ANY history - compilations to other PDKs that mapped only some primitive kinds, compilations that raised
+         halfway through shared sub-modules - a compilation that returns has replaced EVERY instance of a mapped
+         primitive below the module it entered, each by the selected call, and on a well-formed store its outcome is
+         exactly: returned, or raised a selection error that some mapped request below that module produces *)
+Theorem C15_history_every_instance ops s h es k top h' : hrun ops (h0 s) = (h, es) -> hstep k top h = (h', None) ->
+  cleanR k (h_store h') top /\
+  forall j n c p prm g, reach (h_store h) top j -> In (n, c, SPrim p prm) (mod_insts (h_store h) j) -> group_of k p = Some g ->
+    exists cl, conv_g k g prm = SOk (c_spec cl) /\ In (n, c, SCall cl) (mod_insts (h_store h') j).
+Proof.
+  intros H S. split; [eapply hstep_clean; eauto|]. apply (hstep_ok_requests _ _ _ _ S).
+  apply (proj2 (hrun_rel _ _ _ _ H (hinv_h0 s))).
+Qed.
+Print Assumptions C15_history_every_instance.
+
+Theorem C15_history_outcome ops s h es k top h' e : wf s -> (top < List.length s)%nat ->
+  hrun ops (h0 s) = (h, es) -> hstep k top h = (h', e) ->
+  match e with
+  | None => cleanR k (h_store h') top
+  | Some (SE er) => failing k (h_store h) top er
+  | Some _ => False
+  end.
+Proof.
+  intros W L H S. pose proof (proj1 (hrun_rel _ _ _ _ H (hinv_h0 s))) as R. cbn [h0 h_store] in R.
+  pose proof (hstep_total _ _ _ _ _ S (srel_wf _ _ _ R W) ltac:(rewrite <- (srel_len _ _ _ R); exact L)) as B.
+  destruct e as [[er| |]|]; cbn in B; try contradiction.
+  - eapply hstep_err; eauto.
+  - eapply hstep_clean; eauto.
+Qed.
+Print Assumptions C15_history_outcome.
+
+(* non-vacuity: the hierarchy of the seeded change - Leaf (a low-threshold core Nmos and a poly resistor) shared by Mid and Top *)
+Definition ex_store : store :=
+  [ ("Leaf", [ ("m", [("d", "d"); ("g", "g"); ("s", "s"); ("b", "b")], SPrim Mos (prm_triple "MosType.NMOS" "MosFamily.CORE" "MosVth.LOW"));
+               ("r", [("p", "d"); ("n", "s")], SPrim PRes (prm_model "GEN_PO")) ]);
+    ("Mid",  [ ("l0", [("d", "a"); ("g", "b")], SMod 0) ]);
+    ("Top",  [ ("mid", [("a", "x"); ("b", "y")], SMod 1); ("l1", [("d", "y"); ("g", "x")], SMod 0) ]) ].
+
+Definition is_call (o : option starget) : bool := match o with Some (SCall _) => true | _ => false end.
+
+(* GF180 has no such Nmos: its compilation raises; Sky130 then replaces both primitives of the shared Leaf *)
+Example C15_ex_history_after_failure :
+  let '(h, es) := hrun [(Gf180, 2%nat); (Sky130, 2%nat)] (h0 ex_store) in
+  es = [Some (SE ENoDevice); None] /\
+  is_call (get_target (h_store h) 0 0) = true /\ is_call (get_target (h_store h) 0 1) = true.
+Proof. vm_compute. repeat split. Qed.
+
+(* the sample PDK maps the Mos alone and returns; Sky130 then maps the resistor; a third compilation changes nothing *)
+Example C15_ex_history_partial_pdk :
+  let '(h1, es1) := hrun [(Sample, 2%nat)] (h0 ex_store) in
+  let '(h2, es2) := hrun [(Sky130, 2%nat)] h1 in
+  es1 = [None] /\ es2 = [None] /\
+  is_call (get_target (h_store h1) 0 0) = true /\ is_call (get_target (h_store h1) 0 1) = false /\
+  get_target (h_store h2) 0 0 = get_target (h_store h1) 0 0 /\ is_call (get_target (h_store h2) 0 1) = true /\
+  h_store (fst (hrun [(Sky130, 2%nat); (Sample, 1%nat)] h2)) = h_store h2 /\
+  wf ex_store.
+Proof.
+  vm_compute. repeat split.
+  intros i n c j H. destruct i as [|[|[|i]]]; cbn in H.
+  - destruct H as [H|[H|[]]]; discriminate H.
+  - destruct H as [H|[]]. inversion H. lia.
+  - destruct H as [H|[H|[]]]; inversion H; lia.
+  - destruct i; destruct H.
+Qed.
